@@ -30,7 +30,7 @@ def strip_c_comments(src):
 def parse_tables(src):
     """-> list of dicts(name, order, stages, gamma_text[list of str])"""
     out = []
-    for m in re.finditer(r"static\s+struct\s+reb_janus_scheme\s+(\w+)\s*=\s*\{(.*?)\}\s*;", src, flags=re.S):
+    for m in re.finditer(r"static\s+(?:const\s+)?struct\s+reb_janus_scheme\s+(\w+)\s*=\s*\{(.*?)\}\s*;", src, flags=re.S):
         name, body = m.group(1), m.group(2)
         mo = re.search(r"\.order\s*=\s*(\d+)", body)
         ms = re.search(r"\.stages\s*=\s*(\d+)", body)
@@ -132,6 +132,12 @@ static void dump(const char* name, struct reb_janus_scheme* s){
         uint64_t b; memcpy(&b, &s->gamma[i], 8);
         printf(" %%016llx", (unsigned long long)b);
     }
+    printf(" gg");
+    for (unsigned int i=0;i<s->stages;i++){
+        double v = gg(*s, i);
+        uint64_t b; memcpy(&b, &v, 8);
+        printf(" %%016llx", (unsigned long long)b);
+    }
     printf("\n");
 }
 int main(void){
@@ -161,7 +167,8 @@ def compiled_bits(scratch, names):
     out = {}
     for l in q.stdout.splitlines():
         t = l.split()
-        out[t[0]] = dict(order=int(t[1]), stages=int(t[2]), bits=t[3:])
+        k = t.index("gg")
+        out[t[0]] = dict(order=int(t[1]), stages=int(t[2]), bits=t[3:k], ggvals=t[k + 1:])
     return out
 
 
@@ -172,7 +179,10 @@ def extract(repo, scratch=None):
     src = strip_c_comments(raw)
     tables = parse_tables(src)
     glen = gamma_array_len(src)
-    gg = parse_gg(src)
+    try:
+        gg = parse_gg(src)
+    except ExtractError as e:       # the text of gg is optional: its compiled behaviour is what the theorems use
+        gg = dict(error=str(e), c_text="(not parsed: %s)" % e)
     sw = parse_switch(src)
     if len(sw) < 2:
         raise ExtractError("expected the order switch in part1 and part2, found %d" % len(sw))
@@ -190,9 +200,11 @@ def extract(repo, scratch=None):
             if c["order"] != t["order"] or c["stages"] != t["stages"] or len(c["bits"]) != glen:
                 raise ExtractError("compiled table %s disagrees with parsed header" % t["name"])
             t["bits"] = c["bits"]
+            if len(c["ggvals"]) != t["stages"]:
+                raise ExtractError("compiled gg of %s returned %d values for %d stages" % (t["name"], len(c["ggvals"]), t["stages"]))
+            t["ggvals"] = c["ggvals"]
     else:
-        for t in tables:
-            t["bits"] = t["rounded_bits"]
+        raise ExtractError("a scratch build is needed to read the compiled tables")
     return dict(tables=tables, glen=glen, gg=gg, switch=sw)
 
 
@@ -214,6 +226,8 @@ def render(ex):
     L.append("  stages : Nat")
     L.append("  gammaQ : List (Int × Nat)")
     L.append("  gammaBits : List UInt64")
+    L.append("  /-- `gg(s,i)` for `i < stages` as returned by the compiled C function -/")
+    L.append("  ggVals : List UInt64")
     L.append("deriving Repr, DecidableEq")
     L.append("")
     L.append("/-- `double gamma[%d]` -/" % ex["glen"])
@@ -226,6 +240,7 @@ def render(ex):
         L.append("  stages := %d" % t["stages"])
         L.append("  gammaQ := [" + ", ".join(lean_q(x) for x in t["gamma_q"]) + "]")
         L.append("  gammaBits := [" + ", ".join("0x" + b for b in t["bits"]) + "]")
+        L.append("  ggVals := [" + ", ".join("0x" + b for b in t["ggvals"]) + "]")
         L.append("")
     L.append("def tables : List Table := [" + ", ".join(t["name"] for t in T) + "]")
     L.append("")
@@ -233,12 +248,18 @@ def render(ex):
     L.append("def nTables : Nat := %d" % len(T))
     L.append("def nGammaEntries : Nat := %d" % sum(len(t["gamma_q"]) for t in T))
     L.append("def nNonzeroGamma : Nat := %d" % sum(1 for t in T for x in t["gamma_q"] if x != 0))
+    L.append("def nGgVals : Nat := %d" % sum(len(t["ggvals"]) for t in T))
     L.append("")
     gg = ex["gg"]
-    L.append("/-- index into `s.gamma` computed by the C function `gg`, `unsigned int` = `UInt32`:")
+    L.append("/-- index into `s.gamma` computed by the C function `gg` as translated from its text,")
+    L.append("    `unsigned int` = `UInt32`; `none` when the text has another shape (the theorems then rely on")
+    L.append("    `ggVals`, the compiled behaviour, alone):")
     L.append("    `%s` -/" % gg["c_text"].replace("-/", "- /"))
-    L.append("def ggIdx (stages stage : UInt32) : UInt32 :=")
-    L.append("  if %s then %s else %s" % (gg["cond"], gg["idx_then"], gg["idx_else"]))
+    if "error" in gg:
+        L.append("def ggIdx : Option (UInt32 → UInt32 → UInt32) := none")
+    else:
+        L.append("def ggIdx : Option (UInt32 → UInt32 → UInt32) := some fun stages stage =>")
+        L.append("  if %s then %s else %s" % (gg["cond"], gg["idx_then"], gg["idx_else"]))
     L.append("")
     L.append("/-- `switch (ri_janus->order)` of part1 and of part2: (cases, default table, default raises an error) -/")
     for k, (cases, dflt, err) in enumerate(ex["switch"]):
